@@ -1,6 +1,7 @@
 import Rdpgw.Oracle.Codec
 import Rdpgw.Props.C02
 import Rdpgw.Props.C04
+import Rdpgw.Props.C15
 
 /-! Oracle commands for policy and tokens: `checkhost`, `installed`, `clientaddr`, `cookie`. -/
 
@@ -36,5 +37,33 @@ def cmdCookie (m : List (String × String)) : String :=
   match check f (getNat m "now") with
   | none => "refuse"
   | some s => s!"accept host={hexOf s.host} ip={hexOf s.ip} user={hexOf s.user}"
+
+end Rdpgw.Oracle
+
+namespace Rdpgw.Oracle
+
+open Rdpgw Rdpgw.UserToken in
+/-- `usertoken sign=0|1 jwe= dec= cty= inner=claims|jws|other hs= sig= iss=<hex> exp= nbf= iat= sub=<hex> now=` -/
+def cmdUserToken (m : List (String × String)) : String :=
+  let inner : Inner :=
+    match get m "inner" with
+    | "claims" => .claims
+    | "jws" => .jws (getBool m "hs") (getBool m "sig")
+    | _ => .other
+  let f : Facts :=
+    { jwe5 := getBool m "jwe", decOk := getBool m "dec", ctyJWT := getBool m "cty", inner := inner,
+      iss := getHex m "iss", exp := optNat m "exp", nbf := optNat m "nbf", iat := optNat m "iat",
+      sub := getHex m "sub" }
+  match verify (getBool m "sign") f (getNat m "now") with
+  | none => "refuse"
+  | some s => s!"ok {hexOf s}"
+
+open Rdpgw Rdpgw.UserToken in
+/-- `tokeninfo get=0|1 param=none|<hex> verdict=refuse|<hex sub>` → status -/
+def cmdTokenInfo (m : List (String × String)) : String :=
+  let param : Option Bytes := if get m "param" = "none" then none else some (getHex m "param")
+  let res : Bytes → Option Bytes := fun _ => if get m "verdict" = "refuse" then none else some (getHex m "verdict")
+  let r := tokenInfo (getBool m "get") param res
+  s!"{r.1} {b01 r.2.isSome}"
 
 end Rdpgw.Oracle
